@@ -173,11 +173,11 @@ class RemoteState(dict):
                 raise TypeError('State should be dict in order to be patched, not {!r}, while patching remote state of an object with type {!r} with patching context: {}'.format(type(state).__name__, type(ret).__name__, RemoteState._active_contexts.ctxs[-1]))
             else:
                 patched_state = state
-            del obj.__setstate__
+            object.__delattr__(obj, '__setstate__') # (not 'del obj.__setstate__': the class can have its own __delattr__/__setattr__, restoring must not trigger them)
             assert getattr(obj, '__setstate__', None) is None or obj.__setstate__.__func__ is orig_getstate
             orig_getstate(obj, patched_state)
             RemoteState.child_restored(obj)
 
-        ret.__setstate__ = patched_setstate.__get__(ret, type(ret)) # pylint: disable=assignment-from-no-return,no-value-for-parameter
+        object.__setattr__(ret, '__setstate__', patched_setstate.__get__(ret, type(ret))) # pylint: disable=assignment-from-no-return,no-value-for-parameter
         RemoteState.break_patches(children_names)
         return ret
